@@ -10,7 +10,8 @@ Step == l' = l + 1 /\ Mark(l)
 TInit == x = 0 /\ l = 1 /\ HWMInit
 TReset == Is("Reset") /\ UNCHANGED x
                /\ Step
-TCase == Is("InjectCase") /\ UNCHANGED x /\ I!InjectOK(E.c, E.out)
+\* (whatever the classes - also the ones C14 leaves unjudged - the chain answers; a panic in it is no answer)
+TCase == Is("InjectCase") /\ UNCHANGED x /\ I!InjectOK(E.c, E.out) /\ E.out.kind # "panic"
                /\ Step
 TNext == TReset \/ TCase
 TSpec == TInit /\ [][TNext]_<<x, l>>
